@@ -246,21 +246,20 @@ def gen_bitfns(repo):
 # ----------------------------------------------------------------------------
 
 def _generators():
+    """BitFns (this module) plus every py/dv/gen_*.py module: it must define generate(repo) -> str and
+    may define OUTPUT = "Name.v" (default: gen_foo_bar.py -> FooBar.v, with the historical names kept)."""
     gens = [("BitFns.v", gen_bitfns)]
     import importlib
-    for modname, fname, gname in [
-        ("dv.gen_traversals", "Traversals.v", "generate"),
-        ("dv.gen_charclasses", "CharClasses.v", "generate"),
-        ("dv.gen_readerloops", "ReaderLoops.v", "generate"),
-        ("dv.gen_consts", "Consts.v", "generate"),
-    ]:
-        try:
-            m = importlib.import_module(modname)
-        except ModuleNotFoundError as e:
-            if e.name == modname:
-                continue
-            raise
-        gens.append((fname, getattr(m, gname)))
+    import glob
+    historical = {"gen_traversals": "Traversals.v", "gen_charclasses": "CharClasses.v",
+                  "gen_readerloops": "ReaderLoops.v", "gen_consts": "Consts.v"}
+    here = os.path.dirname(os.path.abspath(__file__))
+    for path in sorted(glob.glob(os.path.join(here, "gen_*.py"))):
+        name = os.path.basename(path)[:-3]
+        m = importlib.import_module("dv." + name)
+        out = getattr(m, "OUTPUT", None) or historical.get(name) or \
+            "".join(w.capitalize() for w in name[4:].split("_")) + ".v"
+        gens.append((out, getattr(m, "generate")))
     return gens
 
 
